@@ -57,6 +57,50 @@ theorem C16_conservation (p : Params) (ts : List Thr) (h0 : Initial ts) (c : Cfg
   have := G.st.cons
   omega
 
+/-! ### a rejected Submit leaves nothing behind
+
+`WithPanicOnSubmitAfterShutdown` only decides how a rejected `Submit` returns to its caller (silently, or with a panic
+that is raised by `Submit` itself after `increasePendingTasksIfRunning` has returned and its deferred `RUnlock` has
+run — `C16_skeleton_WorkerPool_Submit`, `C16_lockscript_defer_discipline`).  In the model both are the same two steps:
+the check under the read lock (`fresh → rejected`), then the return (`rej`).  The client goes on with its script, so the
+life-cycle theorems (`C16_conservation`, `C16_shutdown_terminates` — arbitrary scripts) cover every history in which
+rejected submits, recovered or silent, are followed by restarts and shutdowns; `C16_reject_restart_example` is such a
+history, replayed on the real code with and without the option. -/
+
+/-- **The rejecting check touches nothing.**  On a stopped pool whose lock is free the check of a `Submit` has exactly one
+successor: the task is marked rejected, and the flag, the lock, the pending counter, the queue, the channels, the pool's
+goroutines, the owed signals and the event log are what they were — no transient count (seeded change r6-3), nothing
+held (r6-2). -/
+theorem C16_rejected_submit_touches_nothing (p : Params) (s : St) (t : Nat) (x : Task)
+    (hx : s.tasks[t]? = some x) (hret : x.returned = false) (hph : x.phase = .fresh)
+    (hw : s.writer = false) (hrun : s.running = false) :
+    submitStep p s t = [(setPhase s t .rejected, false)] ∧
+    (setPhase s t .rejected).pending = s.pending ∧ (setPhase s t .rejected).writer = false ∧
+    (setPhase s t .rejected).running = false ∧ (setPhase s t .rejected).stackHeld = s.stackHeld ∧
+    (setPhase s t .rejected).sig = s.sig ∧ (setPhase s t .rejected).closed = s.closed ∧
+    (setPhase s t .rejected).disp = s.disp ∧ (setPhase s t .rejected).workers = s.workers ∧
+    (setPhase s t .rejected).due = s.due ∧ (setPhase s t .rejected).log = s.log ∧
+    (setPhase s t .rejected).mon = s.mon ∧ (setPhase s t .rejected).dwait = s.dwait := by
+  refine ⟨?_, ?_⟩
+  · simp [submitStep, hx, hret, hph, hw, hrun]
+  · simp [setPhase, hx, hw, hrun]
+
+/-- **The return of a rejected Submit** is the event `rej t` and nothing else: one successor, the call has returned. -/
+theorem C16_rejected_submit_returns (p : Params) (s : St) (t : Nat) (x : Task)
+    (hx : s.tasks[t]? = some x) (hret : x.returned = false) (hph : x.phase = .rejected) :
+    submitStep p s t = [(emit p (.rej t) (setReturned s t), true)] ∧
+    (emit p (.rej t) (setReturned s t)).pending = s.pending ∧ (emit p (.rej t) (setReturned s t)).writer = s.writer ∧
+    (emit p (.rej t) (setReturned s t)).log = s.log ++ [.rej t] := by
+  refine ⟨?_, ?_⟩
+  · simp [submitStep, hx, hret, hph]
+  · simp [emit, setReturned, hx]
+
+/-- The hypotheses are satisfiable: the stopped pool of `scRejectRestart` just before its rejected Submit's check. -/
+example : ∃ (s : St) (t : Nat) (x : Task), s.tasks[t]? = some x ∧ x.returned = false ∧ x.phase = .fresh ∧
+    s.writer = false ∧ s.running = false :=
+  ⟨{ tasks := [{ phase := .fresh, returned := false, kids := [] }] }, 0, { phase := .fresh, returned := false, kids := [] },
+   rfl, rfl, rfl, rfl, rfl⟩
+
 /-! ### nothing runs after a completed shutdown -/
 
 theorem monRun_append' (c : Bool) (m : Option Mon) (l1 l2 : List Ev) :
